@@ -72,7 +72,7 @@ def check(an: Analysis) -> None:
     gg = an.cfg(get)
     dget = Deps(prog, get)
     gp = get.param_names()
-    for label, inst in (("through an instance", _Abs("object", tag="instance")), ("through the class", None)):
+    for label, inst in (("through an instance", _Abs("object", tag="instance")), ("through an instance whose truth value is False (empty container, __bool__)", _Abs("object", truthy=False, tag="instance")), ("through the class", None)):
 
         def base_get(e: ast.AST, inst=inst):
             if is_name(e, gp[1]):
